@@ -6,7 +6,7 @@ key and the first line (capture lemmas over the marked translation of vf/rx.py).
 B-02 bounded stand-in (the parser-loop contracts of DESIGN §5 C02 are not generated): generated paragraphs (policy-valid names incl. names containing '#', '-', digits;
 first lines with leading ':' / '#', embedded colons, empty; continuation lines starting with space or
 tab, ' .' lines, lines that look like fields or comments after the leading blank) are dumped and
-re-parsed in six input forms x {plain, PGP-clearsigned} x {comment lines interleaved or not}, as a
+re-parsed in seven input forms x {plain, PGP-clearsigned} x {comment lines interleaved or not}, as a
 single paragraph and as multi-paragraph documents through iter_paragraphs.
 """
 import io
@@ -41,6 +41,13 @@ def forms(text):
     yield "lines", lambda: text.split("\n")[:-1] if text.endswith("\n") else text.split("\n")
     yield "text file", lambda: io.StringIO(text)
     yield "binary file", lambda: io.BytesIO(b)
+    try:
+        l1 = text.encode("latin-1")
+    except UnicodeEncodeError:
+        l1 = None
+    if l1 is not None:
+        # a real text-mode file whose own encoding is not UTF-8: it already yields decoded str lines
+        yield "latin-1 text file", lambda: io.TextIOWrapper(io.BytesIO(l1), encoding="latin-1", newline="")
 
 
 def clearsign(text):
